@@ -53,6 +53,13 @@ def run(tier, seed):
                 B.run_case(regrun.policy_of(pd), reg, rng.choice(("dict", "record")), "reject", f"{name}/{fmt}", scn=s)
             if i == 0:
                 chk.sample({"label": f"{name}/{fmt}", "scenario": {k: v for k, v in s.describe().items() if k in ("fmt", "kind", "att_kind", "k")}})
+        if fmt == "tpm":
+            # every manufacturer id that is NOT in the TCG vendor-id registry is refused (one scenario each, not a random pick)
+            for vid in ("id:FFFFFFF0", "id:414d4400", "414D4400", "id:414D440", "id:FFFFF1D0", "id:00000000", "id:FFFFFFFF", "id:414D4401", "id:494E5444", "ID:414D4400", "id:FFFFF1D1", ""):
+                s = regsim.RScn(fmt, "RS256", "RS256")
+                s.k["tpm_manufacturer"] = vid
+                pd, reg = regsim.build(s)
+                B.run_case(regrun.policy_of(pd), reg, "dict", "reject", f"aik-unknown-vendor {vid!r}/{fmt}", scn=s)
         if not quick:
             pairs = list(itertools.combinations(list(faults), 2))
             rng.shuffle(pairs)
